@@ -172,10 +172,19 @@ def apply_impl(c, op, env):
     elif k == "loss":
         c.loss(op[1], op[2])
     elif k == "sw":
-        c.mode_swaps(dict(op[1]))
+        d = dict(op[1])
+        c.mode_swaps(d)
+        for key in list(d):          # poison the caller-owned dict: the circuit must hold its own copy
+            d[key] = key
+        d[99] = 98
     elif k == "uni":
         u = env.U[op[1]] if op[1] in env.U else kernel.haar(op[1], 999)
-        c.add(lw.Unitary(u.copy()), op[2], group=op[3])
+        arr = u.copy()
+        sub = lw.Unitary(arr)
+        arr[:] = 0                   # poison the caller-owned array (before and after the add)
+        c.add(sub, op[2], group=op[3])
+        sub.ps(0, 1.234)             # later edit of the added object must not reach the parent
+        arr[:] = 7
     elif k == "uni_bad":
         m = np.array([[1, 0.2], [0, 1]], dtype=complex)
         c.add(lw.Unitary(m), op[2])
@@ -183,7 +192,9 @@ def apply_impl(c, op, env):
         if op[1] is None:
             c.barrier()
         else:
-            c.barrier(list(op[1]))
+            ms = list(op[1])
+            c.barrier(ms)
+            ms.append(0); ms[0] = 99
     elif k == "plus_self":
         c = c + c
     elif k == "plus_lib":
@@ -337,6 +348,9 @@ def emulator_family(env, tier="quick"):
                     "ops": [("bs", 0, 1, env.R2, "H", 0), ("add", "lossy", n - 2, False),
                             ("loss", 0, g), ("her", 1, 0, 1)]})
         if n >= 3:
+            fam.append({"name": "n%d/crossher+sub" % n, "n": n,
+                        "ops": [uni, ("her", 2, 0, n - 1), ("her", 0, n - 1, 0), ("add", "h3mid", 0, False),
+                                ("ps", 0, env.PH[1], 0)]})
             fam.append({"name": "n%d/sub_h4desc" % n, "n": n,
                         "ops": [uni, ("add", "h4desc", 1, False), ("ps", 0, env.PH[0], 0)]})
     if tier == "quick":
